@@ -147,8 +147,14 @@ def run_case(ctx, rep, case, base, model_ok):
             fp_ = os.path.join(path, "data", sub_, f"prebuilt_{a}.parquet")
             pq.write_table(pa.table({"id": [1000 * a], "name": [f"ext{a}"]}, schema=sch_), fp_)
             _age(path, f"data/{sub_}prebuilt_{a}.parquet")
-            tx.append_files([DataFile(file_path=f"/data/{sub_}prebuilt_{a}.parquet", file_format=FileFormat.PARQUET, partition_values={},
-                                      record_count=1, file_size_in_bytes=os.path.getsize(fp_))])
+            df_ = DataFile(file_path=f"/data/{sub_}prebuilt_{a}.parquet", file_format=FileFormat.PARQUET, partition_values={},
+                           record_count=1, file_size_in_bytes=os.path.getsize(fp_))
+            tx.append_files([df_])
+            if case.get("reused"):
+                # the SAME Transaction object begun again after a rollback, the same file queued again: the second attempt needs its own protection
+                tx.rollback()
+                tx.begin()
+                tx.append_files([df_])
             tx._written_files.append(f"data/prebuilt_{a}.parquet") if False else None
         elif case.get("kind") == "delete-partial":
             tx.delete_files(["/" + tablekit.data_paths(h)[-1]])
@@ -273,8 +279,8 @@ def run_case(ctx, rep, case, base, model_ok):
 def _two_collections(ctx, rep, base):
     """one long transaction, TWO collections: the first while the data file is being written (its marker exists, the file does not
     yet), the second — after the file has aged past the grace period — inside the commit, before the pointer moves"""
-    for when2 in ("before-metadata-commit", "before-manifest-list"):
-        path = os.path.join(base, f"two-{when2}")
+    for when2, first in [(w_, f_) for w_ in ("before-metadata-commit", "before-manifest-list") for f_ in ("before-write", "after-write")]:
+        path = os.path.join(base, f"two-{when2}-{first}")
         t0 = tablekit.create(path)
         t0.append_records(tablekit.rows(2, tag="init"))
         h, g = tablekit.load(path), tablekit.load(path)
@@ -284,11 +290,21 @@ def _two_collections(ctx, rep, base):
         log = []
 
         def hooked_write(*a, **k):
+            if first == "before-write":
+                log.append(("gc1", g.garbage_collect(grace_period_ms=0)))
+                return o_write(*a, **k)
+            r_ = o_write(*a, **k)           # the file now exists; whatever protects it must already be in place
             log.append(("gc1", g.garbage_collect(grace_period_ms=0)))
-            return o_write(*a, **k)
+            return r_
         dfm.write_data_file = hooked_write
         try:
             tx.append_data(tablekit.rows(1, start=1000, tag="long_"))
+        except Exception as e:      # noqa: BLE001
+            rep.evaluations += 1
+            rep.violate("C06:live-transaction-file-deleted-by-concurrent-gc", f"a whole collection (grace 0) placed {first.replace('-', ' the ')} of the data file inside "
+                        f"append_data: the append raises {type(e).__name__}: {str(e)[:80]}", {"kind": "two-collections", "second": when2, "first": first})
+            shutil.rmtree(path, ignore_errors=True)
+            continue
         finally:
             dfm.write_data_file = o_write
         rel = tx._written_files[0].lstrip("/")
@@ -313,7 +329,7 @@ def _two_collections(ctx, rep, base):
             setattr(target, name, o2)
         rep.evaluations += 1
         rep.nontrivial(["two-collections", when2])
-        case = {"kind": "two-collections", "second": when2}
+        case = {"kind": "two-collections", "second": when2, "first": first}
         try:
             reader.view(path)
         except reader.Broken as e:
@@ -366,7 +382,8 @@ def run(ctx, model_ok):
         # grace 0: EVERYTHING unreachable and unprotected goes — a whole collection after each gated operation of one commit
         # (append / partial delete that rewrites a manifest / append whose first marker write failed)
         for variant in ({"kind": "append"}, {"kind": "delete-partial"}, {"kind": "append", "marker_fault": True}, {"kind": "prebuilt-file"},
-                        {"kind": "prebuilt-file", "grace": GRACE_MS}, {"kind": "prebuilt-nested"}, {"kind": "prebuilt-nested", "grace": GRACE_MS}):
+                        {"kind": "prebuilt-file", "grace": GRACE_MS}, {"kind": "prebuilt-nested"}, {"kind": "prebuilt-nested", "grace": GRACE_MS},
+                        {"kind": "prebuilt-file", "reused": True}, {"kind": "prebuilt-file", "reused": True, "grace": GRACE_MS}):
             k = 0
             while True:
                 c = {"id": cid, "txs": 1, "aged": [True], "rollback": [False], "chooser": _gc_after_k(k), "grace": 0, "no_model": True, **variant}
